@@ -86,8 +86,15 @@ PROPS['C19'] = {
 }
 
 TIM = 'cloud::__verif_timing::'
+PEERS_TRUSTED = [
+    'unit peers: the claim table is an opaque environment observed through announced(peer) / routes_to(peer); ClaimTable::set_claims / remove_claims carry the contracts proved for them in unit table, restated over these observers',
+    'unit peers: GenericCloud::connect_to_peers / connect_sock are environment functions assumed not to touch the peer map or the table; the clock does not advance within one operation',
+    'unit peers R5 pinned statements: `self.peers.get_mut(&addr)`, `self.peers.remove(&addr)` (exact map contracts for SocketAddr keys), `peer.addrs.contains(addr)`, and the loop over the peer map in housekeep that collects expired addresses (`for (&addr, data) in &self.peers { if data.timeout < now { del.push(addr); } }`: ref patterns / HashMap iteration are not typed by this Verus); R4: GenericCloud pruned to config, peers, table',
+]
 PROPS['C15'] = {
     'level': 'proof',
+    # what refreshes a peer and with which timeout; when it is removed
+    'verus': [{'unit': 'peers', 'fns': ['GenericCloud::update_peer_info', 'GenericCloud::housekeep_expiry_block', 'lemma_take_contains', 'canary_.*']}],
     'kani': {
         'files': {'src/cloud.rs': ['kani/timing.rs.in']},
         'harnesses': [
@@ -98,9 +105,9 @@ PROPS['C15'] = {
             K(TIM, 'configured_peer_is_retained', 'retain predicate of reconnect_to_peers keeps every entry without final_timeout (configured peers are retried indefinitely)', fns=['cloud::GenericCloud::reconnect_to_peers (block: retain predicate)']),
         ],
     },
-    'trusted': ['block contracts: only the named statement ranges are under contract; the rest of housekeep / reconnect_to_peers is not'],
+    'trusted': ['block contracts: only the named statement ranges are under contract; the rest of housekeep / reconnect_to_peers is not'] + PEERS_TRUSTED,
     'not_decided': [
-        'that a silent peer is removed at the next tick and re-dialled (GenericCloud::housekeep as a whole: HashMap iteration, sockets)',
+        'GenericCloud::housekeep beyond the expiry statements and the interval statements (crypto_housekeep, statistics, beacons, port forwarding); add_new_peer setting the first expiry',
         'mesh-level "no healthy peer is ever timed out" (needs delivery assumptions)',
     ],
 }
@@ -240,12 +247,15 @@ TABLE_TRUSTED = [
 ]
 PROPS['C12'] = {
     'level': 'proof',
-    'verus': [{'unit': 'table', 'fns': TABLE_FNS}],
+    'verus': [{'unit': 'table', 'fns': TABLE_FNS},
+              # node level: a peer removed by close message / replacement (remove_peer) or by timeout (housekeep) keeps no route; node
+              # information sets exactly the announced claims (update_peer_info)
+              {'unit': 'peers'}],
     'native_search': {'table::ClaimTable::set_claims': [{'file': 'native/table_setclaims.rs', 'attach': 'src/table.rs', 'test': 'claims_equal_last_announcement'}, TABLE_MODEL],
                       r'table::.*': TABLE_MODEL},
-    'trusted': TABLE_TRUSTED,
+    'trusted': TABLE_TRUSTED + PEERS_TRUSTED,
     'not_decided': [
-        'node level: "when a peer is removed for any reason no claim keeps pointing at it" needs GenericCloud::{housekeep, remove_peer, crypto_housekeep, add_new_peer} (HashMap iteration, sockets, handshake objects): crypto_housekeep removes a peer without remove_claims - reading only, no obligation stated',
+        'node level, remaining: GenericCloud::crypto_housekeep removes a peer whose per-peer crypto tick fails WITHOUT remove_claims (reading: PeerCrypto::every_second does not fail for an established peer, so this is not reached in practice); the repair path of handle_interface_data (next hop not a peer) is unreachable behind `send_msg(..)?` (reading); add_new_peer',
         'duplicates and order of the claim list are not part of the contract (set semantics)',
     ],
 }
@@ -367,7 +377,10 @@ PROPS['C01'] = {
     'level': 'proof',
     'level_text': 'PARTIAL - three of the four mechanisms of this property, as contracts on the real code (Verus): (1) InitMsg::read_from returns a message only if it carries an Ed25519 signature that is valid, under a key of the trusted list - the one selected by the salted hash in the first 8 bytes - over ALL bytes up to and including the end marker; for every byte sequence and every trusted list, with termination and memory safety. (2) InitState::handle_init, from its first statement up to the decoder call: when the decoder rejects, the error is returned with the handshake object and the buffer geometry unchanged ("without altering a handshake already in progress"). (3) the statements of GenericCloud::handle_net_message that treat a handshake datagram from an address without pending handshake: the responder object is stored only if it accepted that first message; otherwise no pending entry, no peer, nothing sent ("without creating a peer ... without any reply"). Ed25519 and SHA-256 are uninterpreted functions (unforgeability is the cipher assumption). NOT decided: that two nodes become peers EXACTLY when each trusts the other (needs the whole handshake: C05), mechanism (4) (payload of pong/peng must decrypt before success is reported), the stages after the decoder inside handle_init, lingering / pending handshake objects receiving the datagram (PeerCrypto::handle_message is an environment function at node level), key parsing and the trusted-list construction in Crypto::new.',
     'verus': [{'unit': 'codec', 'rlimit': 60, 'fns': ['InitMsg::read_from', 'InitState::handle_init_until_decoded', 'MsgBuffer::.*', 'lemma_cur_adv', 'canary_.*']},
-              {'unit': 'cloud', 'fns': ['GenericCloud::responder_block', 'GenericCloud::handle_net_message']}],
+              {'unit': 'cloud', 'fns': ['GenericCloud::responder_block', 'GenericCloud::handle_net_message']},
+              # "accepts its payload only from a party that proved possession": before the handshake produced a core, or plain mode was
+              # negotiated, no non-handshake datagram is interpreted by the per-peer object (also while the handshake is pending)
+              {'unit': 'buffer', 'fns': ['PeerCrypto::(decrypt_message|handle_message|get_core)', 'is_init_message']}],
     'native_search': {r'codec::(InitMsg|InitState).*': INIT_DRV},
     'trusted': CODEC_TRUSTED + CLOUD_TRUSTED + [
         'ring: Ed25519 verification and SHA-256 as uninterpreted functions ed25519_ok(key, data, signature), key_hash4(key, salt); R5 pinned statements: `signature::UnparsedPublicKey::new(&ED25519, &public_key_data)` + `public_key.verify(signed_data, &signature).is_err()`, `Self::calculate_hash(tk, &public_key_salt) == public_key_hash`',
